@@ -74,6 +74,15 @@ func root() string {
 	return "/verif"
 }
 
+var cleanupDir string
+
+func exit(code int) {
+	if cleanupDir != "" {
+		os.RemoveAll(cleanupDir)
+	}
+	os.Exit(code)
+}
+
 func goEnv() []string {
 	env := os.Environ()
 	env = append(env, "GOFLAGS=-mod=mod", "GOPROXY=off", "GOSUMDB=off", "GOTOOLCHAIN=local", "CGO_ENABLED=1")
@@ -222,6 +231,7 @@ func main() {
 	os.RemoveAll(runDir)
 	os.MkdirAll(runDir, 0o755)
 	defer os.RemoveAll(runDir)
+	cleanupDir = runDir // os.Exit skips deferred calls: exit() removes the run directory (journals are large) itself
 	wargs := []string{"-p", *prop, "-tier", t, "-seed", strconv.FormatUint(seed, 10), "-out", runDir}
 	if *only != "" {
 		wargs = append(wargs, "-only", *only)
@@ -243,7 +253,7 @@ func main() {
 	}
 	if err := w.Start(); err != nil {
 		fmt.Printf("INCONCLUSIVE property=%s cannot start worker: %v\n", *prop, err)
-		os.Exit(2)
+		exit(2)
 	}
 	done := make(chan error, 1)
 	go func() { done <- w.Wait() }()
@@ -268,7 +278,7 @@ func main() {
 		os.MkdirAll(keep, 0o755)
 		os.WriteFile(filepath.Join(keep, "watchdog-stderr.txt"), []byte(tail(filepath.Join(runDir, "stderr.txt"), 200000)), 0o644)
 		fmt.Printf("INCONCLUSIVE property=%s wall-clock watchdog (%v) fired; goroutine dump in witness/%s/watchdog-stderr.txt\n", *prop, watchdog, *prop)
-		os.Exit(2)
+		exit(2)
 	}
 
 	var res result
@@ -284,7 +294,7 @@ func main() {
 		}
 		if code == 4 {
 			fmt.Printf("INCONCLUSIVE property=%s reference self-test failed: %s\n", *prop, tail(filepath.Join(runDir, "stderr.txt"), 2000))
-			os.Exit(2)
+			exit(2)
 		}
 		jl := tail(filepath.Join(runDir, "journal.txt"), 9000)
 		if i := strings.LastIndex(strings.TrimRight(jl, "\n"), "\n"); i >= 0 {
@@ -401,11 +411,11 @@ func main() {
 	fmt.Printf("SUMMARY property=%s tier=%s seed=%d evaluations=%d distinct_nontrivial=%d violations=%d known=%d stale_known=%d wall=%.1fs\n",
 		*prop, t, seed, res.Evaluations, res.Nontrivial, len(unlisted), len(knownHit), len(stale), time.Since(start).Seconds())
 	if len(unlisted) > 0 {
-		os.Exit(1)
+		exit(1)
 	}
 	if inconclusive != "" {
 		fmt.Printf("INCONCLUSIVE property=%s %s\n", *prop, inconclusive)
-		os.Exit(2)
+		exit(2)
 	}
 	if replayKey != "" {
 		fmt.Printf("REPLAY property=%s key=%s did not reproduce (or is a listed known finding)\n", *prop, replayKey)
